@@ -345,5 +345,26 @@ def main(argv):
                     elif v_.endswith("was closed 0 times"):
                         ctx.violation("overlapping callers: a healthy connection was dropped by the pool without being closed - it can never be reused, the next call opens another: "
                                       + v_, case, tags=["overlap", "dropped-open"])
+    # the same with the REAL PooledClient methods and REAL Client objects in the pool (identity of the pooled objects matters: the pool finds them
+    # with deque.remove): a quit() or a failing call of one caller while another caller's call is in flight
+    import pymemcache.client.base as base_mod_
+    for progs in [(["useOk"], ["quitOk"]), (["quitOk"], ["useOk"]), (["useOk", "useOk"], ["quitOk"]), (["useFail"], ["useOk"]), (["quitFail"], ["useOk"]), (["useOk"], ["useOk"])]:
+        programs = [list(p_) for p_ in progs]
+        for mx in (2, 3):
+            s0, _, _ = c08_mod.run_pc_schedule(pmod, base_mod_, mx, programs, ())
+            npoints = min(s0.pos, 110)
+            pts = list(range(0, npoints, 1 if ctx.thorough else 2))
+            pl = itertools.chain(c08_mod.plans(pts, 2, 1), (((p_, 1), (q_, 0)) for p_, q_ in itertools.combinations(pts[::2], 2)) if any("quit" in o_ for p_ in programs for o_ in p_) else ())
+            for plan in pl:
+                sched_, viol_, leak_ = c08_mod.run_pc_schedule(pmod, base_mod_, mx, programs, plan)
+                ctx.case(("overlap-real", tuple(map(tuple, programs)), mx, plan))
+                ctx.count("overlapping-callers-schedules (real clients)")
+                case = {"programs": programs, "max_pool_size": mx, "plan": [list(x_) for x_ in plan], "trace_tail": [f"{t_}:{e_}" for t_, e_ in sched_.trace][-30:]}
+                if leak_:
+                    ctx.violation(f"overlapping callers: open socket(s) {leak_} belong to no pooled client any more - a healthy connection dropped instead of reused", case,
+                                  tags=["overlap", "dropped-open"])
+                for v_ in viol_:
+                    if "is closed" in v_ or "still checked out" in v_ or "deadlock" in v_ or "internal error" in v_ or "held by two" in v_:
+                        ctx.violation("overlapping callers: " + v_, case, tags=["overlap"])
     ctx.assumptions = ["time is the patched pool clock (integer ticks); one call happens at one instant", "a connection = one successfully connected socket"]
     ctx.finish()
